@@ -18,22 +18,38 @@ if "--replay" in args:
     cmd = ["python3-vt", "-c", "import sys; sys.path.insert(0,'.'); from pyvc.driver import main; main()"] + args
     sys.exit(subprocess.run(cmd, cwd=V).returncode)
 variants = g if isinstance(g, list) else [g]
+stages_cfg = json.load(open(os.path.join(V, "tools", "stages.json")))
 rcs = []
 evs = []
+import shutil, signal, tempfile
+tmpd = tempfile.mkdtemp(prefix="check_ev_", dir=os.path.join(V, "evidence")) if os.path.isdir(os.path.join(V, "evidence")) else tempfile.mkdtemp()
 for gv in variants:
     gd = V if gv == "main" else os.path.join(V, "groups", gv)
-    budget = int(os.environ.get("CHECK_BUDGET_S", "2700" if tier == "quick" else "21600"))
-    proc = subprocess.Popen(["python3-vt", "-c", "import sys; sys.path.insert(0,'.'); from pyvc.driver import main; main()"] + args, cwd=gd, start_new_session=True)
-    try:
-        proc.wait(timeout=budget)
-        rcs.append(proc.returncode)
-    except subprocess.TimeoutExpired:
-        import signal
-        os.killpg(proc.pid, signal.SIGKILL)  # the prover and its solver workers
-        proc.wait()
-        print("UNDECIDED property=%s time budget of %d s exhausted in engine variant %s (no verdict from the prover)" % (prop, budget, gv), flush=True)
-        rcs.append(2)
-    evs.append((gv, os.path.join(gd, "evidence", "%s.json" % prop)))
+    # a property whose run is dominated by one function is checked in stages: everything else first (a violation there is
+    # reported without waiting for the slow function), then that function alone
+    stages = [dict()]
+    slow = stages_cfg.get(prop)
+    if slow and "--only" not in args:
+        stages = [dict(env={"PYVC_SKIP": slow}), dict(extra=["--only", slow])]
+    for k, stg in enumerate(stages):
+        budget = int(os.environ.get("CHECK_BUDGET_S", "2700" if tier == "quick" else "21600"))
+        env = dict(os.environ, **stg.get("env", {}))
+        proc = subprocess.Popen(["python3-vt", "-c", "import sys; sys.path.insert(0,'.'); from pyvc.driver import main; main()"] + args + stg.get("extra", []), cwd=gd, start_new_session=True, env=env)
+        try:
+            proc.wait(timeout=budget)
+            rcs.append(proc.returncode)
+        except subprocess.TimeoutExpired:
+            os.killpg(proc.pid, signal.SIGKILL)  # the prover and its solver workers
+            proc.wait()
+            print("UNDECIDED property=%s time budget of %d s exhausted in engine variant %s (no verdict from the prover)" % (prop, budget, gv), flush=True)
+            rcs.append(2)
+        src = os.path.join(gd, "evidence", "%s.json" % prop)
+        dst = os.path.join(tmpd, "%s_%s_%d.json" % (prop, gv, k))
+        if os.path.exists(src) and "--no-evidence" not in args:
+            shutil.copy(src, dst)
+        evs.append((gv, dst))
+        if rcs[-1] == 1 and len(stages) > 1 and k == 0:
+            break  # violation already found: do not spend the slow stage
 # 1 (violation) dominates, then 3 (engine failure), then 2 (undecided)
 rc = 1 if 1 in rcs else (3 if 3 in rcs else (2 if 2 in rcs else 0))
 g = variants[0]
@@ -83,7 +99,7 @@ if "--no-evidence" not in args and all(os.path.exists(f) for _, f in evs):
         e["violations"] = int(e.get("violations", 0)) + int(e2.get("violations", 0))
         if e2.get("level") != "proof":
             e["level"] = e2.get("level", e["level"])
-    named = [gv for gv, _ in evs if gv != "main"]
+    named = list(dict.fromkeys(gv for gv, _ in evs if gv != "main"))
     if named:
         cov["checker_cmd"] = "cd /verif && ./check %s --tier %s   (engine variant%s %s)" % (prop, e.get("tier", tier), "s" if len(named) > 1 else "", ", ".join("/verif/groups/%s/pyvc" % x for x in named))
         for x in named:
@@ -95,4 +111,5 @@ if "--no-evidence" not in args and all(os.path.exists(f) for _, f in evs):
     e["wall_s"] = round(time.time() - t0, 2)
     os.makedirs(os.path.join(V, "evidence"), exist_ok=True)
     json.dump(e, open(os.path.join(V, "evidence", "%s.json" % prop), "w"), indent=1)
+shutil.rmtree(tmpd, ignore_errors=True)
 sys.exit(rc)
